@@ -211,3 +211,103 @@ package extendeddaemonset
 //@   ensures [C07,C12,C13] deletes-only-listed-replica-sets: forall k int :: lognew(k) && logverb(k) == "Delete" ==> n0 + 1 < k && logverb(n0 + 1) == "List" && root(logobj(k)) == root(L.Items)
 //@   loop 1 invariant [C13] upToDateRS == nil ==> forall i int :: 0 <= i && i < iter() ==> !comparison.IsReplicaSetUpToDate(&replicaSetList.Items[i], instance)
 //@   loop 1 invariant activeRS == nil || root(activeRS) == root(replicaSetList.Items)
+//@
+//@ import utils "github.com/DataDog/extendeddaemonset/pkg/controller/utils"
+//@
+// Metric generators: the function literal stored next to Name: "<metric>" in generateMetricFamilies is addressed as
+// generateMetricFamilies@<metric>, independent of its position.
+//@ func generateMetricFamilies@eds_status_desired
+//@   requires typeof(obj) == typeid("*v1.ExtendedDaemonSet") && ifaceval(obj) != nil
+//@   modifies nothing
+//@   ensures [C20] one-series: result != nil && len(result.Metrics) == 1 && result.Metrics[0] != nil
+//@   ensures [C20] reports-the-status-field: result.Metrics[0].Value == real(cast(ifaceval(obj), "*v1.ExtendedDaemonSet").Status.Desired)
+//@   ensures [C20] labelled-with-namespace-and-name: len(result.Metrics[0].LabelKeys) >= 2 && len(result.Metrics[0].LabelValues) == len(result.Metrics[0].LabelKeys)
+//@             && result.Metrics[0].LabelKeys[0] == "namespace" && result.Metrics[0].LabelKeys[1] == "name"
+//@             && result.Metrics[0].LabelValues[0] == cast(ifaceval(obj), "*v1.ExtendedDaemonSet").ObjectMeta.Namespace && result.Metrics[0].LabelValues[1] == cast(ifaceval(obj), "*v1.ExtendedDaemonSet").ObjectMeta.Name
+//@ func generateMetricFamilies@eds_status_current
+//@   requires typeof(obj) == typeid("*v1.ExtendedDaemonSet") && ifaceval(obj) != nil
+//@   modifies nothing
+//@   ensures [C20] one-series: result != nil && len(result.Metrics) == 1 && result.Metrics[0] != nil
+//@   ensures [C20] reports-the-status-field: result.Metrics[0].Value == real(cast(ifaceval(obj), "*v1.ExtendedDaemonSet").Status.Current)
+//@   ensures [C20] labelled-with-namespace-and-name: len(result.Metrics[0].LabelKeys) >= 2 && len(result.Metrics[0].LabelValues) == len(result.Metrics[0].LabelKeys)
+//@             && result.Metrics[0].LabelKeys[0] == "namespace" && result.Metrics[0].LabelKeys[1] == "name"
+//@             && result.Metrics[0].LabelValues[0] == cast(ifaceval(obj), "*v1.ExtendedDaemonSet").ObjectMeta.Namespace && result.Metrics[0].LabelValues[1] == cast(ifaceval(obj), "*v1.ExtendedDaemonSet").ObjectMeta.Name
+//@ func generateMetricFamilies@eds_status_ready
+//@   requires typeof(obj) == typeid("*v1.ExtendedDaemonSet") && ifaceval(obj) != nil
+//@   modifies nothing
+//@   ensures [C20] one-series: result != nil && len(result.Metrics) == 1 && result.Metrics[0] != nil
+//@   ensures [C20] reports-the-status-field: result.Metrics[0].Value == real(cast(ifaceval(obj), "*v1.ExtendedDaemonSet").Status.Ready)
+//@   ensures [C20] labelled-with-namespace-and-name: len(result.Metrics[0].LabelKeys) >= 2 && len(result.Metrics[0].LabelValues) == len(result.Metrics[0].LabelKeys)
+//@             && result.Metrics[0].LabelKeys[0] == "namespace" && result.Metrics[0].LabelKeys[1] == "name"
+//@             && result.Metrics[0].LabelValues[0] == cast(ifaceval(obj), "*v1.ExtendedDaemonSet").ObjectMeta.Namespace && result.Metrics[0].LabelValues[1] == cast(ifaceval(obj), "*v1.ExtendedDaemonSet").ObjectMeta.Name
+//@ func generateMetricFamilies@eds_status_available
+//@   requires typeof(obj) == typeid("*v1.ExtendedDaemonSet") && ifaceval(obj) != nil
+//@   modifies nothing
+//@   ensures [C20] one-series: result != nil && len(result.Metrics) == 1 && result.Metrics[0] != nil
+//@   ensures [C20] reports-the-status-field: result.Metrics[0].Value == real(cast(ifaceval(obj), "*v1.ExtendedDaemonSet").Status.Available)
+//@   ensures [C20] labelled-with-namespace-and-name: len(result.Metrics[0].LabelKeys) >= 2 && len(result.Metrics[0].LabelValues) == len(result.Metrics[0].LabelKeys)
+//@             && result.Metrics[0].LabelKeys[0] == "namespace" && result.Metrics[0].LabelKeys[1] == "name"
+//@             && result.Metrics[0].LabelValues[0] == cast(ifaceval(obj), "*v1.ExtendedDaemonSet").ObjectMeta.Namespace && result.Metrics[0].LabelValues[1] == cast(ifaceval(obj), "*v1.ExtendedDaemonSet").ObjectMeta.Name
+//@ func generateMetricFamilies@eds_status_uptodate
+//@   requires typeof(obj) == typeid("*v1.ExtendedDaemonSet") && ifaceval(obj) != nil
+//@   modifies nothing
+//@   ensures [C20] one-series: result != nil && len(result.Metrics) == 1 && result.Metrics[0] != nil
+//@   ensures [C20] reports-the-status-field: result.Metrics[0].Value == real(cast(ifaceval(obj), "*v1.ExtendedDaemonSet").Status.UpToDate)
+//@   ensures [C20] labelled-with-namespace-and-name: len(result.Metrics[0].LabelKeys) >= 2 && len(result.Metrics[0].LabelValues) == len(result.Metrics[0].LabelKeys)
+//@             && result.Metrics[0].LabelKeys[0] == "namespace" && result.Metrics[0].LabelKeys[1] == "name"
+//@             && result.Metrics[0].LabelValues[0] == cast(ifaceval(obj), "*v1.ExtendedDaemonSet").ObjectMeta.Namespace && result.Metrics[0].LabelValues[1] == cast(ifaceval(obj), "*v1.ExtendedDaemonSet").ObjectMeta.Name
+//@ func generateMetricFamilies@eds_status_ignored_unresponsive_nodes
+//@   requires typeof(obj) == typeid("*v1.ExtendedDaemonSet") && ifaceval(obj) != nil
+//@   modifies nothing
+//@   ensures [C20] one-series: result != nil && len(result.Metrics) == 1 && result.Metrics[0] != nil
+//@   ensures [C20] reports-the-status-field: result.Metrics[0].Value == real(cast(ifaceval(obj), "*v1.ExtendedDaemonSet").Status.IgnoredUnresponsiveNodes)
+//@   ensures [C20] labelled-with-namespace-and-name: len(result.Metrics[0].LabelKeys) >= 2 && len(result.Metrics[0].LabelValues) == len(result.Metrics[0].LabelKeys)
+//@             && result.Metrics[0].LabelKeys[0] == "namespace" && result.Metrics[0].LabelKeys[1] == "name"
+//@             && result.Metrics[0].LabelValues[0] == cast(ifaceval(obj), "*v1.ExtendedDaemonSet").ObjectMeta.Namespace && result.Metrics[0].LabelValues[1] == cast(ifaceval(obj), "*v1.ExtendedDaemonSet").ObjectMeta.Name
+//@ func generateMetricFamilies@eds_status_canary_activated
+//@   requires typeof(obj) == typeid("*v1.ExtendedDaemonSet") && ifaceval(obj) != nil
+//@   modifies nothing
+//@   ensures [C20] one-series: result != nil && len(result.Metrics) == 1 && result.Metrics[0] != nil
+//@   ensures [C20] reports-the-status-field: result.Metrics[0].Value == ite(cast(ifaceval(obj), "*v1.ExtendedDaemonSet").Status.Canary != nil, real(1), real(0))
+//@   ensures [C20] labelled-with-namespace-and-name: len(result.Metrics[0].LabelKeys) >= 2 && len(result.Metrics[0].LabelValues) == len(result.Metrics[0].LabelKeys)
+//@             && result.Metrics[0].LabelKeys[0] == "namespace" && result.Metrics[0].LabelKeys[1] == "name"
+//@             && result.Metrics[0].LabelValues[0] == cast(ifaceval(obj), "*v1.ExtendedDaemonSet").ObjectMeta.Namespace && result.Metrics[0].LabelValues[1] == cast(ifaceval(obj), "*v1.ExtendedDaemonSet").ObjectMeta.Name
+//@ func generateMetricFamilies@eds_status_canary_node_number
+//@   requires typeof(obj) == typeid("*v1.ExtendedDaemonSet") && ifaceval(obj) != nil
+//@   modifies nothing
+//@   ensures [C20] one-series: result != nil && len(result.Metrics) == 1 && result.Metrics[0] != nil
+//@   ensures [C20] reports-the-status-field: result.Metrics[0].Value == ite(cast(ifaceval(obj), "*v1.ExtendedDaemonSet").Status.Canary != nil, real(len(cast(ifaceval(obj), "*v1.ExtendedDaemonSet").Status.Canary.Nodes)), real(0))
+//@   ensures [C20] labelled-with-namespace-and-name: len(result.Metrics[0].LabelKeys) >= 2 && len(result.Metrics[0].LabelValues) == len(result.Metrics[0].LabelKeys)
+//@             && result.Metrics[0].LabelKeys[0] == "namespace" && result.Metrics[0].LabelKeys[1] == "name"
+//@             && result.Metrics[0].LabelValues[0] == cast(ifaceval(obj), "*v1.ExtendedDaemonSet").ObjectMeta.Namespace && result.Metrics[0].LabelValues[1] == cast(ifaceval(obj), "*v1.ExtendedDaemonSet").ObjectMeta.Name
+//@ func generateMetricFamilies@eds_status_canary_paused
+//@   requires typeof(obj) == typeid("*v1.ExtendedDaemonSet") && ifaceval(obj) != nil
+//@   modifies nothing
+//@   ensures [C20] one-series: result != nil && len(result.Metrics) == 1 && result.Metrics[0] != nil
+//@   ensures [C20] reports-the-status-field: result.Metrics[0].Value == ite(cast(ifaceval(obj), "*v1.ExtendedDaemonSet").Status.Canary != nil && edsconditions.IsConditionTrue(&cast(ifaceval(obj), "*v1.ExtendedDaemonSet").Status, v1.ConditionTypeEDSCanaryPaused), real(1), real(0))
+//@   ensures [C20] labelled-with-namespace-and-name: len(result.Metrics[0].LabelKeys) >= 2 && len(result.Metrics[0].LabelValues) == len(result.Metrics[0].LabelKeys)
+//@             && result.Metrics[0].LabelKeys[0] == "namespace" && result.Metrics[0].LabelKeys[1] == "name"
+//@             && result.Metrics[0].LabelValues[0] == cast(ifaceval(obj), "*v1.ExtendedDaemonSet").ObjectMeta.Namespace && result.Metrics[0].LabelValues[1] == cast(ifaceval(obj), "*v1.ExtendedDaemonSet").ObjectMeta.Name
+//@ func generateMetricFamilies@eds_status_rolling_update_paused
+//@   requires typeof(obj) == typeid("*v1.ExtendedDaemonSet") && ifaceval(obj) != nil
+//@   modifies nothing
+//@   ensures [C20] one-series: result != nil && len(result.Metrics) == 1 && result.Metrics[0] != nil
+//@   ensures [C20] reports-the-status-field: result.Metrics[0].Value == ite(cast(ifaceval(obj), "*v1.ExtendedDaemonSet").Status.State == "RollingUpdate Paused", real(1), real(0))
+//@   ensures [C20] labelled-with-namespace-and-name: len(result.Metrics[0].LabelKeys) >= 2 && len(result.Metrics[0].LabelValues) == len(result.Metrics[0].LabelKeys)
+//@             && result.Metrics[0].LabelKeys[0] == "namespace" && result.Metrics[0].LabelKeys[1] == "name"
+//@             && result.Metrics[0].LabelValues[0] == cast(ifaceval(obj), "*v1.ExtendedDaemonSet").ObjectMeta.Namespace && result.Metrics[0].LabelValues[1] == cast(ifaceval(obj), "*v1.ExtendedDaemonSet").ObjectMeta.Name
+//@ func generateMetricFamilies@eds_status_rollout_frozen
+//@   requires typeof(obj) == typeid("*v1.ExtendedDaemonSet") && ifaceval(obj) != nil
+//@   modifies nothing
+//@   ensures [C20] one-series: result != nil && len(result.Metrics) == 1 && result.Metrics[0] != nil
+//@   ensures [C20] reports-the-status-field: result.Metrics[0].Value == ite(cast(ifaceval(obj), "*v1.ExtendedDaemonSet").Status.State == "Rollout frozen", real(1), real(0))
+//@   ensures [C20] labelled-with-namespace-and-name: len(result.Metrics[0].LabelKeys) >= 2 && len(result.Metrics[0].LabelValues) == len(result.Metrics[0].LabelKeys)
+//@             && result.Metrics[0].LabelKeys[0] == "namespace" && result.Metrics[0].LabelKeys[1] == "name"
+//@             && result.Metrics[0].LabelValues[0] == cast(ifaceval(obj), "*v1.ExtendedDaemonSet").ObjectMeta.Namespace && result.Metrics[0].LabelValues[1] == cast(ifaceval(obj), "*v1.ExtendedDaemonSet").ObjectMeta.Name
+//@ func generateMetricFamilies@eds_labels
+//@   requires typeof(obj) == typeid("*v1.ExtendedDaemonSet") && ifaceval(obj) != nil
+//@   modifies nothing
+//@   ensures [C20] one-series: result != nil && len(result.Metrics) == 1 && result.Metrics[0] != nil && result.Metrics[0].Value == real(1)
+//@   ensures [C20] as-many-keys-as-values: len(result.Metrics[0].LabelKeys) == 2 + len(cast(ifaceval(obj), "*v1.ExtendedDaemonSet").ObjectMeta.Labels) && len(result.Metrics[0].LabelValues) == len(result.Metrics[0].LabelKeys)
+//@   ensures [C20] label-value-belongs-to-its-key: forall j int :: 0 <= j && j < len(cast(ifaceval(obj), "*v1.ExtendedDaemonSet").ObjectMeta.Labels) ==>
+//@             exists key string :: (key in cast(ifaceval(obj), "*v1.ExtendedDaemonSet").ObjectMeta.Labels) && result.Metrics[0].LabelKeys[2 + j] == utils.sanitizeLabelName(key) && result.Metrics[0].LabelValues[2 + j] == cast(ifaceval(obj), "*v1.ExtendedDaemonSet").ObjectMeta.Labels[key]
